@@ -223,6 +223,48 @@ def replay(cases_path, zerv_bin, report_path):
                 mismatches.append({"key": "C18:return-value", "call": "version(stdin=%r, **%r)" % (doc[:20], kw), "argv": argv,
                                    "expected": ("raises" if direct.returncode != 0 else direct.stdout.strip()[:300]),
                                    "observed": "raised" if raised else ret[:300]})
+    # repeated identical calls in one process: each call is the command line run NOW, not a remembered answer -
+    # (i) the repository changes between two calls, (ii) the template prints the wall clock
+    import time
+    def git(*cmd):
+        subprocess.run(["git"] + list(cmd), cwd=tmp, env=genv, check=True, stdin=subprocess.DEVNULL, capture_output=True)
+    steps = [lambda: None, lambda: (git("commit", "-q", "--allow-empty", "-m", "c2"), git("tag", "v1.3.0")),
+             lambda: git("commit", "-q", "--allow-empty", "-m", "c3"), lambda: git("tag", "-d", "v1.3.0")]
+    for fn, kw, argv in (("version", {"source": "git", "repo_path": tmp}, ["version", "-s", "git", "-C", tmp]),
+                         ("flow", {"repo_path": tmp, "schema": "standard-base-prerelease-post"}, ["flow", "-C", tmp, "--schema", "standard-base-prerelease-post"])):
+        for step in steps:
+            step()
+            n += 1
+            nontrivial += 1
+            direct = subprocess.run([zerv_bin] + argv, capture_output=True, text=True, stdin=subprocess.DEVNULL)
+            try:
+                ret, raised = getattr(zerv, fn)(**kw), False
+            except RuntimeError:
+                ret, raised = None, True
+            ok = raised if direct.returncode != 0 else (not raised and ret == direct.stdout.strip())
+            if not ok:
+                mismatches.append({"key": "C18:return-value", "call": "%s(**%r) called again after the repository changed" % (fn, kw), "argv": argv,
+                                   "expected": ("raises" if direct.returncode != 0 else direct.stdout.strip()[:300]),
+                                   "observed": "raised" if raised else ret[:300]})
+        git("tag", "v1.3.0", "HEAD~1")
+        git("reset", "-q", "--hard", "HEAD~2")
+        git("tag", "-d", "v1.3.0")
+    clock = "{{ current_timestamp }}"
+    for fn, pos, kw in (("render", ["1.2.3"], {"output_template": clock}), ("version", [], {"source": "none", "tag_version": "1.2.3", "output_template": clock}),
+                        ("flow", [], {"source": "none", "tag_version": "1.2.3", "output_template": clock})):
+        for rep in range(2):
+            n += 1
+            nontrivial += 1
+            t0 = int(time.time())
+            try:
+                ret = getattr(zerv, fn)(*pos, **kw)
+            except Exception as e:  # noqa: BLE001
+                ret = "<exception %r>" % e
+            t1 = int(time.time())
+            if not (ret.isdigit() and t0 <= int(ret) <= t1):
+                mismatches.append({"key": "C18:return-value", "call": "%s(%s, **%r), call %d in this process" % (fn, pos, kw, rep + 1),
+                                   "expected": "the wall clock of this call, %d..%d" % (t0, t1), "observed": ret[:100]})
+            time.sleep(1.05)
     import shutil
     shutil.rmtree(tmp, ignore_errors=True)
     for fn, pos, kw in must_fail:
